@@ -4,7 +4,7 @@
 From Coq Require Import String List Bool Arith.
 Import ListNotations.
 Open Scope string_scope.
-Require Import Nib.C16.Model.
+Require Import Nib.C16.Model Nib.C16.Spec Nib.C16.Spelled.
 
 Inductive gate := GateSudoers | GateRoot | GateNone.
 
@@ -63,12 +63,37 @@ Definition gated (hs : list handler) (g : gate) : list (string * string * gate) 
     of the dispatched message is the dispatching contract" lies on it *)
 Record route_path := { rp_branch : string; rp_signer_guard : bool }.
 
+(** a string written into the stored sudoers from a message (x/sudo/keeper): [sw_what] = "root" (the new
+    root), "add" / "remove" (argument of Contracts.Add / Contracts.Remove); [sw_canonical] = the written
+    string is the String() of the PARSED address, not the string of the message *)
+Record sudoers_write := { sw_fn : string; sw_what : string; sw_expr : string; sw_canonical : bool }.
+
 Record facts := {
   f_sites : list gate_site;
   f_handlers : list handler;
   f_gate_functions : list string;
-  f_wasm_routes : list route_path
+  f_wasm_routes : list route_path;
+  f_writes : list sudoers_write
 }.
+
+Definition writes_of (f : facts) (what : string) : list sudoers_write :=
+  filter (fun w => String.eqb (sw_what w) what) (f_writes f).
+
+Definition nonempty {A} (l : list A) : bool := match l with [] => false | _ => true end.
+
+(** the switches of the string-keyed store of Spelled.v as read off the tree:
+    every write of the root is canonical; the entries of a removal are (also) removed under their
+    canonical spelling; no root test compares the sender and the stored root as STRINGS *)
+Definition rawcfg_of (f : facts) : rawcfg :=
+  {| rw_root := nonempty (writes_of f "root") && forallb sw_canonical (writes_of f "root");
+     rw_remove := existsb sw_canonical (writes_of f "remove");
+     rw_sender := negb (existsb (String.eqb "GateRoot:$0==$1") (f_gate_functions f)) |}.
+
+(** with all three in place (and canonical additions) the store behaves as the identity-keyed model
+    (ProofsSpelled.canon_store_simulates): spellings cannot matter *)
+Definition spelling_safe (f : facts) : bool :=
+  rw_root (rawcfg_of f) && rw_remove (rawcfg_of f) && rw_sender (rawcfg_of f) &&
+  nonempty (writes_of f "add") && forallb sw_canonical (writes_of f "add").
 
 (** the wrapper-guard switch of the model ([Model.c_wguard]) as read off the tree: a message a
     contract dispatches reaches the router only past the signer guard, on EVERY branch — also the
@@ -85,14 +110,16 @@ Fixpoint strs_eqb (a b : list string) : bool :=
 
 (** the gate functions of x/sudo/keeper, recognised by the normal form of their body (parameters
     $0 $1, receiver $r), whatever their name, receiver or file:
-      root test on the strings (AddContracts / RemoveContracts)   — Model.v [sender =? root s]
-      root test on the decoded addresses (ChangeRoot)             — Model.v [sender =? root s]
+      root test on the decoded addresses (AddContracts / RemoveContracts) — Model.v [sender =? root s]
+      root test on the decoded addresses (ChangeRoot)                     — Model.v [sender =? root s]
+    ([addr(X)==addr(Y)] = sdk.AccAddressFromBech32(X).Equals(sdk.AccAddressFromBech32(Y)); a comparison of
+    the STRINGS would read [X==Y] and is not the model's identity test: a valid upper-case sender differs)
       CheckPermissions: listed contract or root                    — Model.v [permitted]
     ([member(X,y)] is the generator's one spelling of a list-membership test: set.New(X...).Has(y) or
     slices.Contains(X,y); any other lookup, e.g. a binary search, keeps its own text) *)
 Definition model_gate_functions : list string :=
-  ["GateRoot:$0==$1";
-   "GateRoot:sdk.AccAddressFromBech32($0.Root).Equals(sdk.AccAddressFromBech32($1.Sender))";
+  ["GateRoot:addr($0)==addr($1)";
+   "GateRoot:addr($0.Root)==addr($1.Sender)";
    "GateSudoers:member($r.Sudoers.Get($1).Contracts,$0.String())||$0.String()==$r.Sudoers.Get($1).Root"].
 
 (** what the model assumes about the code, as a check on the generated facts *)
@@ -107,4 +134,6 @@ Definition facts_ok (f : facts) : bool :=
   (* the gate functions compute what the model's [permitted] / root test computes *)
   strs_eqb (f_gate_functions f) model_gate_functions &&
   (* whatever a contract dispatches is checked against the contract, wrappers included *)
-  wguard_of f.
+  wguard_of f &&
+  (* what is stored / compared is the identity an address string decodes to, not its spelling *)
+  spelling_safe f.
